@@ -5,7 +5,7 @@
    with fixes/C17-directoryapp-containment-before-index.patch applied). *)
 From Coq Require Import ZArith NArith List Bool.
 Require Import Webob.Lib.Val Webob.Lib.PyStr Webob.Model.C17_path Webob.Model.C17_static Webob.Spec.C17_spec
-               Webob.Proofs.C17_path Webob.Proofs.C17_dirapp Webob.Proofs.C17_iter.
+               Webob.Proofs.C17_path Webob.Proofs.C17_dirapp Webob.Proofs.C17_iter Webob.Proofs.C17_live.
 Import ListNotations.
 
 (* ---- paths ---- *)
@@ -88,6 +88,24 @@ Theorem C17_index_redirect : forall root idx hide fs rq,
     else D404 ip.
 Proof. exact index_redirect. Qed.
 Print Assumptions C17_index_redirect.
+
+(* the positive direction: every regular file inside the root, requested by its plain relative
+   path, IS handed to FileApp (unless hidden by the index redirect) *)
+Theorem C17_serves_plain_file : forall rootc ns idx hide fs purl qs,
+  rootc <> [] -> ns <> [] ->
+  Forall (fun c => proper c = true) rootc -> Forall (fun c => proper c = true) ns ->
+  (hide = false \/ idx_truthy idx = false) ->
+  let root := SEP :: join [SEP] rootc ++ [SEP] in
+  let p := root ++ join [SEP] ns in
+  isfile fs p = true ->
+  dirapp_call root idx hide fs (mkDreq (SEP :: join [SEP] ns) purl qs) = DServe p.
+Proof. exact serves_plain_file. Qed.
+Print Assumptions C17_serves_plain_file.
+
+Example C17_serves_plain_file_hyps :
+  let rootc := [[114]; [115]]%N in let ns := [[97]; [98; 46; 116]]%N in
+  rootc <> [] /\ ns <> [] /\ Forall (fun c => proper c = true) rootc /\ Forall (fun c => proper c = true) ns.
+Proof. exact serves_plain_file_hyps. Qed.
 
 (* whatever is answered 200/206 is a readable regular file inside the root, answered as FileApp answers it *)
 Theorem C17_ok_is_inside_file : forall root idx hide fs dq fq r,
